@@ -3,6 +3,7 @@ import LJT.Model.Lossless
 import LJT.Model.Bits
 import LJT.Model.SeqHuff
 import LJT.Model.Arith
+import LJT.Model.ArithBin
 import LJT.Model.ProgAC
 import LJT.Gen.Tables
 /-! An interchange-format decoder written from ITU-T T.81 (not from libjpeg-turbo's decoder):
@@ -208,49 +209,12 @@ def decodeScan (f : Frame) (tabs : Tables) (sc : Scan) (ri : Nat) (intervals : L
 /-- signed value of a 16-bit quantity -/
 def s16 (x : Nat) : Int := if x % 65536 ≥ 32768 then ((x % 65536 : Nat) : Int) - 65536 else ((x % 65536 : Nat) : Int)
 
-/-- AC refinement of one block with the arithmetic decoder (G.2 as coded in decode_mcu_AC_refine) -/
-def arithACRefine (a : Arith.AS) (st : Store) (c blk tbl ss se al : Nat) : Option (Store × Arith.AS) := Id.run do
-  let p1 : Int := (2 : Int) ^ al
-  let m1 : Int := - p1
-  let nat := Gen.naturalOrder
-  let mut a := a
-  let mut st := st
-  -- last nonzero coefficient of the band (or below)
-  let mut kex := se
-  while kex > 0 && st.get c blk (nat.getD kex 0) == 0 do kex := kex - 1
-  let mut k := ss
-  let mut fuel := 70
-  while k ≤ se && fuel > 0 do
-    fuel := fuel - 1
-    let mut bin := Arith.acBase tbl + 3 * (k - 1)
-    if k > kex then
-      let (eob, a1) := Arith.decode a bin
-      a := a1
-      if eob == 1 then break
-    let mut go := true
-    let mut f2 := 70
-    while go && f2 > 0 do
-      f2 := f2 - 1
-      let pos := nat.getD k 0
-      let cur := st.get c blk pos
-      if cur != 0 then
-        let (b, a1) := Arith.decode a (bin + 2)
-        a := a1
-        if b == 1 then st := st.set c blk pos (if cur < 0 then cur + m1 else cur + p1)
-        go := false
-      else
-        let (nz, a1) := Arith.decode a (bin + 1)
-        a := a1
-        if nz == 1 then
-          let (sg, a2) := Arith.decode a Arith.fixedBin
-          a := a2
-          st := st.set c blk pos (if sg == 1 then m1 else p1)
-          go := false
-        else
-          bin := bin + 3; k := k + 1
-          if k > se then return none
-    k := k + 1
-  return some (st, a)
+/-- AC refinement of one block with the arithmetic decoder (G.2 as coded in decode_mcu_AC_refine):
+`ArithBin.decR` on the band's current values -/
+def arithACRefine (a : Arith.AS) (st : Store) (c blk tbl ss se al : Nat) : Option (Store × Arith.AS) :=
+  match ArithBin.decR ArithBin.qm tbl ((2 : Int) ^ al) false ss (st.band c blk ss se) a with
+  | none => none
+  | some (vals, a') => some (st.setBand c blk ss vals, a')
 
 /-- decode the entropy-coded data of one arithmetic-coded scan (SOF9 / SOF10) -/
 def decodeScanArith (f : Frame) (tabs : Tables) (sc : Scan) (ri : Nat) (intervals : List (List Nat)) (st0 : Store)
@@ -293,7 +257,7 @@ def decodeScanArith (f : Frame) (tabs : Tables) (sc : Scan) (ri : Nat) (interval
             let blk := (my * bv + by_) * wbp + (mx * bh + bx)
             let doDC := !prog || sc.ss == 0
             if doDC && !(prog && sc.ah != 0) then
-              match Arith.decodeDC a s.td (ctx.getD i 0) (tabs.dcL.getD s.td 0) (tabs.dcU.getD s.td 1) with
+              match ArithBin.decDC ArithBin.qm a s.td (ctx.getD i 0) (tabs.dcL.getD s.td 0) (tabs.dcU.getD s.td 1) with
               | none => return .error "arithmetic DC: magnitude overflow"
               | some (d, cx, a1) =>
                 a := a1
@@ -309,18 +273,18 @@ def decodeScanArith (f : Frame) (tabs : Tables) (sc : Scan) (ri : Nat) (interval
                 -- `|= p1` on the two's-complement value
                 st := st.set s.ci blk 0 (s16 (((cur % 65536).toNat ||| 2 ^ sc.al)))
             if !prog then
-              match Arith.decodeACband a s.ta (tabs.acK.getD s.ta 5) 1 63 with
+              match ArithBin.decF ArithBin.qm s.ta (tabs.acK.getD s.ta 5) false 1 63 a with
               | none => return .error "arithmetic AC: spectral or magnitude overflow"
               | some (vals, a1) =>
                 a := a1
-                for (k, v) in vals do st := st.set s.ci blk (Gen.naturalOrder.getD k 0) v
+                st := st.setBand s.ci blk 1 vals
             else if sc.ss != 0 then
               if sc.ah == 0 then
-                match Arith.decodeACband a s.ta (tabs.acK.getD s.ta 5) sc.ss sc.se with
+                match ArithBin.decF ArithBin.qm s.ta (tabs.acK.getD s.ta 5) false sc.ss (sc.se + 1 - sc.ss) a with
                 | none => return .error "arithmetic AC first: spectral or magnitude overflow"
                 | some (vals, a1) =>
                   a := a1
-                  for (k, v) in vals do st := st.set s.ci blk (Gen.naturalOrder.getD k 0) (s16 ((v * 2 ^ sc.al) % 65536).toNat)
+                  st := st.setBand s.ci blk sc.ss (vals.map (fun v => s16 ((v * 2 ^ sc.al) % 65536).toNat))
               else
                 match arithACRefine a st s.ci blk s.ta sc.ss sc.se sc.al with
                 | none => return .error "arithmetic AC refinement: spectral overflow"
